@@ -102,7 +102,15 @@ def r14_2(run, model):
         body = S.norm_ws(run.facts.text(SEP, f.body["sp"]))
         t["reader"] = re.search(r"=read_source_files\(&opts\.package,&opts\.input_files\)\?", body) is not None
         t["deps sorted+dedup"] = "deps.sort();deps.dedup();" in body
-        t["skips Builtin/self"] = 'ifdep=="Builtin"||dep==opts.package{continue;}' in body
+        filt = []
+        for loop in S.find(f.body, "For"):
+            if not any(True for _ in S.calls(loop["body"], "load_interface_from_paths")):
+                continue
+            for iff in S.find(loop["body"], "If"):
+                acts = sorted({x["k"] for x in S.walk_no_closures(iff["then"]) if x["k"] in ("Continue", "Return", "Break")})
+                if acts:
+                    filt.append((S.norm_ws(run.facts.text(SEP, iff["cond"]["sp"])), "/".join(acts)))
+        t["import filter"] = ("same conditions", sorted(filt))
         t["loader"] = "load_interface_from_paths(&dep,&opts.interface_paths)?" in body
         m = re.search(r"typecheck_single_package\(([^;]*?)\);", body)
         t["typecheck args"] = m.group(1) if m else None
